@@ -114,9 +114,17 @@ def generate(rng, index: int, tier: str) -> dict:
     tl5 = [{"at": 0.0, "op": "user.init"}]
     t = 6.0
     n = rng.choice([4, 8, 16])
+    cur_upd = upd
     for _ in range(n):
         r = rng.random()
-        if r < 0.45:
+        if r < 0.1:
+            # the console announces its versions again: the list may change with or without the update flag changing
+            vs = rng.choice([["1.3.3"], ["1.3.3", "1.2.0"], ["1.4.0"], ["1.4.0", "1.3.3"], ["2.0.1", "2.0.1"]])
+            if rng.random() < 0.4:
+                cur_upd = not cur_upd
+            for tl in (tl4, tl5):
+                tl.append({"at": t, "op": "console.version", "versions": list(vs), "update": cur_upd})
+        elif r < 0.45:
             k = rng.random()
             if k < 0.45:
                 ac = rng.choice(ac_ids)
